@@ -129,6 +129,7 @@ class FnSpec:
         self.mutself = False
         self.canary_inplace = False
         self.forbid = []
+        self.extraloops = 0
         self.binds = []   # (NAME, regex with one group): names of locals taken from the source text
         self.key = None
         self.src_span = None
@@ -364,6 +365,8 @@ class Unit:
             elif word == 'lcalls':
                 names, toks = rest.split('+=')
                 spec.lcalls.append(([x.strip() for x in names.split(',')], toks.strip())); cur = None
+            elif word == 'extraloops':
+                spec.extraloops = int(rest.strip()); cur = None
             elif word == 'forbid':
                 rx, _, why = rest.partition('::')
                 spec.forbid.append((re.compile(rx.strip(), re.S), why.strip() or 'construct the model cannot interpret')); cur = None
@@ -591,6 +594,12 @@ class Unit:
             fm = frx.search(code_only)
             if fm:
                 raise Undecided('unsupported: %s (%s) in %s' % (fwhy, ' '.join(fm.group(0).split())[:60], spec.key))
+        # a loop that has no invariant attached loses every fact about what it may touch: a function that has grown a loop
+        # the template does not know is not verified against the old contract
+        code_only = ''.join(c if m_ else ' ' for c, m_ in zip(body, code_mask(body)))
+        n_loops = len(re.findall(r'\b(?:while|loop|for)\b[^;{}]*\{', code_only))
+        if n_loops > len(spec.loops) + spec.extraloops:
+            raise Undecided('unsupported: %d loops in %s, the contract has invariants for %d (+%d known to need none)' % (n_loops, spec.key, len(spec.loops), spec.extraloops))
         bad = unmodelled_guard_write(body)
         if bad:
             # a write through a mutex guard is invisible to Verus unless a rewrite rule (R6) turned it into a call of a
